@@ -4,7 +4,7 @@ from common import *
 
 RULE = ('inputs: corpus, g2 fragment shuffler, g3 raw code points of all planes incl. surrogates/NUL, g4 pump strings per rule, '
         'long texts dense in multi-character lexemes (any block-wise scan cuts one), single lexemes of 70k/1.1M characters of every region kind, '
-        'near-duplicate texts tokenized back to back (same length/ends, different middle: carried-over state); '
+        'near-duplicate texts tokenized back to back (same length/ends, different middle: carried-over state); pairs of texts whose lazy token streams are consumed in turn (alternating, nested, abandoned); '
         'non-trivial = distinct input with at least two tokens or an Error token')
 ASSUMPTIONS = ['CPython re matches as the model derivs (sampled by S-RE on every rule x every position of the sampled inputs)',
                'bytes decoding is C19, not here']
@@ -118,6 +118,55 @@ def oracle_after(ctx, before, s):
         f['what'] += ' (when tokenized right after the text in extra.before)'
 
 
+def interleaved(ctx, pool):
+    """tokenize() returns a lazy generator: two scans that are consumed alternately (zip of two token streams, a filter that tokenizes another
+    text while the outer scan is suspended) must not influence each other.  Every text is paired with its successor and with fixed partners;
+    three schedules: strict alternation, a complete inner scan after the third outer token, an abandoned (never finished) inner scan"""
+    from sqlparse import lexer
+    texts = [s for s in pool if 3 <= len(s) <= 400][: ctx.n(400, 4000)]
+    partners = ['select a from t', "insert into t values ('a;b', 2)", '/* c */ x -- y\n', '\x00\ud800$$q$$ `b` "d"', ' ']
+    n = 0
+    for i, a in enumerate(texts):
+        for b in (texts[(i + 1) % len(texts)], partners[i % len(partners)]):
+            for schedule in ('alternate', 'nested', 'abandoned'):
+                try:
+                    ga, gb = lexer.tokenize(a), lexer.tokenize(b)
+                    va, vb = [], []
+                    if schedule == 'alternate':
+                        da = db = False
+                        while not (da and db):
+                            if not da:
+                                t = next(ga, None)
+                                da = t is None
+                                if t is not None:
+                                    va.append(t[1])
+                            if not db:
+                                t = next(gb, None)
+                                db = t is None
+                                if t is not None:
+                                    vb.append(t[1])
+                    else:
+                        for _ in range(3):
+                            t = next(ga, None)
+                            if t is not None:
+                                va.append(t[1])
+                        if schedule == 'nested':
+                            vb = [v for _, v in gb]
+                        else:
+                            next(gb, None)
+                            vb = None
+                        va += [v for _, v in ga]
+                except Exception as e:
+                    ctx.fail('tokenize raised %s when two scans are consumed in turn (%s)' % (type(e).__name__, schedule), a, observed=repr(e), required='no exception', other=b, schedule=schedule)
+                    continue
+                n += 1
+                ctx.evaluations += 1
+                if ''.join(va) != a or (vb is not None and ''.join(vb) != b):
+                    ctx.fail('token values do not concatenate to the input when two scans are consumed in turn (%s)' % schedule, a, observed=short(''.join(va)), required=short(a),
+                             other=b, schedule=schedule)
+    ctx.count('interleaved', n)
+
+
 def run(ctx):
     ins = inputs_for(ctx)
     impl_lines = [oracle(ctx, s) for s in ins]
@@ -134,6 +183,7 @@ def run(ctx):
     for before, s in history_pairs(ctx, ins):
         oracle_after(ctx, before, s)
         ctx.count('history_pair')
+    interleaved(ctx, ins)
     # when an obligation broke, aim the search at what changed: pumps and single characters per rule
     if ctx.broken:
         for cp in list(range(0, 0x300)) + [0x2028, 0xd800, 0x10ffff]:
@@ -146,6 +196,11 @@ def run(ctx):
 
 def replay(ctx, payload):
     n0 = len(ctx.failures)
+    if (payload.get('extra') or {}).get('schedule'):
+        ex = payload['extra']
+        ctx.tier = 'quick'
+        interleaved(ctx, [payload['input'], ex['other']])
+        return len(ctx.failures) > n0
     before = (payload.get('extra') or {}).get('before')
     if before is not None:
         oracle_after(ctx, before, payload['input'])
